@@ -11,9 +11,11 @@ import (
 	"math/rand"
 	"net/netip"
 	"os"
+	"sync"
 	"time"
 
 	"github.com/IrineSistiana/mosproxy/internal/limiter"
+	"github.com/IrineSistiana/mosproxy/internal/verifhook"
 	"github.com/IrineSistiana/mosproxy/internal/zzverif/vtrace"
 )
 
@@ -67,6 +69,7 @@ func main() {
 	out := flag.String("out", "trace.ndjson", "")
 	stim := flag.String("stim", "", "")
 	random := flag.Int("random", 0, "")
+	conc := flag.Int("conc", 0, "rounds of concurrent first contacts of a fresh subnet")
 	flag.Parse()
 	rng := rand.New(rand.NewSource(vtrace.Seed()))
 	tr = vtrace.Open(*out)
@@ -126,6 +129,37 @@ func main() {
 			arrs = append(arrs, arrival{a, 1 + rng.Intn(3), t})
 		}
 		replay(c, arrs)
+	}
+	// concurrent first contacts: the decisions are taken from the hook inside ClientLimiter.AllowN
+	// (emitted under the bucket's own lock), so the file order is the linearization order
+	if *conc > 0 {
+		var inConc bool
+		verifhook.SetSink(func(name string, args []any) {
+			if name != "lim.cl" || !inConc {
+				return
+			}
+			tr.Emit("lim.v", "addr", fromAddr(args[1].(netip.Addr)), "t", int(args[3].(time.Time).Sub(epoch)/time.Millisecond), "n", args[4], "res", args[5])
+		})
+		for r := 0; r < *conc; r++ {
+			c := cfg{8, 1 + r%3, 24, 48}
+			cl := limiter.NewClientLimiter(limiter.ClientLimiterOpts{Limit: float64(c.limit), Burst: c.burst, V4Mask: c.v4, V6Mask: c.v6})
+			tr.Emit("lim.cfg", "limit", c.limit, "burst", c.burst, "v4", c.v4, "v6", c.v6)
+			inConc = true
+			for k := 0; k < 6; k++ { // several fresh subnets per limiter
+				var wg sync.WaitGroup
+				start := make(chan struct{})
+				now := epoch.Add(time.Duration(125*k) * time.Millisecond)
+				for g := 0; g < 8; g++ {
+					wg.Add(1)
+					a := netip.AddrFrom4([4]byte{64, byte(r), byte(k), byte(1 + g)})
+					go func() { defer wg.Done(); <-start; cl.AllowN(a, now, 1) }()
+				}
+				close(start)
+				wg.Wait()
+			}
+			inConc = false
+			cl.Close()
+		}
 	}
 	fmt.Printf("stims=%d random=%d events=%d\n", ns, *random, tr.N)
 }
